@@ -304,7 +304,10 @@ def case_misc(ctx, inp):
     chunks = _spec_py(inp.get("chunks", "auto"))
     if op == "tri":
         N, M, k, dt = inp["N"], inp["M"], inp["k"], inp.get("dtype", "f8")
-        _same(ctx, "tri", da.tri(N, M, k, dtype=dt, chunks=chunks), np.tri(N, M, k, dtype=dt))
+        r = da.tri(N, M, k, dtype=dt, chunks=chunks)
+        _same(ctx, "tri", r, np.tri(N, M, k, dtype=dt))
+        if isinstance(chunks, tuple) and all(isinstance(c, tuple) for c in chunks) and r.chunks != chunks:
+            ctx.fail("tri: explicit chunks not honoured", observed=r.chunks, expected=chunks)
     elif op == "indices":
         dims, dt = tuple(inp["dims"]), inp.get("dtype", "i8")
         _same(ctx, "indices", da.indices(dims, dtype=dt, chunks=chunks), np.indices(dims, dtype=dt))
@@ -474,8 +477,10 @@ def generate(ctx):
                          "ones_like", "zeros_like", "full_like", "empty_like"])
         if op == "tri":
             N, M = rng.randint(0, 8), rng.choice([None, rng.randint(0, 8)])
+            Mv = N if M is None else M
             yield "misc", {"op": op, "N": N, "M": M, "k": rng.randint(-8, 8), "dtype": rng.choice(["f8", "bool", "i4"]),
-                           "chunks": rng.choice([rng.randint(1, 5), "auto", [rng.randint(1, 4), rng.randint(1, 4)]])}
+                           "chunks": rng.choice([rng.randint(1, 5), "auto", [rng.randint(1, 4), rng.randint(1, 4)],
+                                                 [rand_comp(rng, N), rand_comp(rng, Mv)]])}
         elif op == "indices":
             dims = [rng.randint(0 if rng.random() < 0.1 else 1, 5) for _ in range(rng.randint(1, 3))]
             yield "misc", {"op": op, "dims": dims, "dtype": rng.choice(["i8", "f8", "i4"]),
